@@ -1,5 +1,6 @@
 """C03 — Written files follow the published on-disk layout."""
 import io
+import os
 
 import h5py
 import numpy as np
@@ -137,7 +138,7 @@ def run(c):
         # encoder says for the graphs they hold (up to optional fields and legacy integer widths)
         fail = None
         for rel in ARTEFACTS:
-            p = "/repo/" + rel
+            p = os.environ.get("NIR_REPO", "/repo") + "/" + rel
             try:
                 with quiet():
                     g = nir.read(p)
@@ -158,16 +159,45 @@ def run(c):
     g = b[1]
     bio = io.BytesIO()
     nontriv = len(r["nodes"]) >= 2 or "metadata" in r
+    import hashlib
+    import shutil
+    import tempfile
+    pre = int(hashlib.sha256(sig.encode()).hexdigest(), 16) % 5      # 0, 1: the target path already holds something else
+    tmpdir = None
     try:
         with quiet():
-            nir.write(bio, g)
+            if pre in (0, 1):
+                tmpdir = tempfile.mkdtemp(prefix="nirverif_c03_")
+                p = os.path.join(tmpdir, "model.nir")
+                with h5py.File(p, "w") as f0:
+                    if pre == 0:     # somebody else's HDF5 file (a checkpoint): the written file must not keep any of it
+                        f0.create_dataset("checkpoint", data=np.arange(5.0))
+                        f0.create_group("optimizer").create_dataset("lr", data=0.1)
+                        f0.attrs["epoch"] = 3
+                    else:            # an older NIR file with extra members
+                        f0.create_dataset("version", data="0.0.1")
+                        f0.create_group("node").create_dataset("type", data="NIRGraph")
+                        f0.create_dataset("extra", data=[1, 2, 3])
+                        f0["node"].attrs["note"] = "old"
+                nir.write(p if pre == 0 else __import__("pathlib").Path(p), g)
+                bio = io.BytesIO(open(p, "rb").read())
+            else:
+                nir.write(bio, g)
     except BaseException as e:  # noqa: BLE001
         return Outcome(f"(CWrite {pyobs.nexpr(r)} (Err OtherError))", None, False, sig)
+    finally:
+        if tmpdir:
+            shutil.rmtree(tmpdir, ignore_errors=True)
     with h5py.File(bio, "r") as f:
         coq = f"(CWrite {pyobs.nexpr(r)} (Ok {pyobs.h5_term(f)}))"
         root = raw_tree(f)
+        n_attrs = len(f.attrs) + len(f["node"].attrs) if "node" in f else len(f.attrs)
     fail = None
-    if root[0] != "group" or set(root[1]) != {"version", "node"}:
+    if n_attrs:
+        fail = f"the written file carries {n_attrs} HDF5 attribute(s) on / or /node (the layout has none)"
+    if fail:
+        pass
+    elif root[0] != "group" or set(root[1]) != {"version", "node"}:
         fail = f"root members {sorted(root[1]) if root[0] == 'group' else root} != ['node', 'version']"
     elif root[1]["version"] != ("str", nir.version):
         fail = f"/version is {root[1]['version']}, library version is {nir.version!r}"
